@@ -5,7 +5,7 @@ from vf.core import Unit
 
 NAME = "U-errs"
 TOOL = "sim"
-PROPS = ["C06", "C16"]
+PROPS = ["C06", "C16", "C13", "C01", "C08", "C09"]
 TRUSTED = ["the probe driver prints the error returned by compile()"]
 
 
@@ -39,13 +39,34 @@ def corpus(tier):
         ("unsigned char i;\nvoid main() { asm(\"nop\", -1); if (i) i = 1; }\n", ["-O0"], "negative asm size"), ("char a[2 ! 1];\nvoid main() { }\n", ["-O0"], "infix ! in a constant expression"),
         ("char a[4];\nvoid main() { X = a[\"abc\" + 1]; }\n", ["-O0"], "literal plus constant as a subscript"), ("unsigned char x;\nvoid main() { x *= 2; }\n", ["-O0"], "x *= 2"),
         ("char *p;\nvoid main() { p = @7@; }\n", ["-O0"], "literal marker in the source"), ("#define 123\nvoid main() { }\n", ["-O0"], "#define without a name"))]
-    return [("error-locations", ["C06"], loc), ("error-locations-inside-a-statement", ["C06"], multi), ("no-panic", ["C16"], nopanic)]
+    # a store needs a place: these used to emit `STA #<arr`, `STA #0` (instructions that do not exist)
+    rejected = [{"source": s_, "args": ["-O0"], "expect": {"panic": False, "is_error": True}, "note": n} for s_, n in (
+        ("const char arr[2] = {1,2};\nvoid main() { arr = 5; }\n", "assignment to an array"), ("char x;\nvoid main() { &x = 3; }\n", "assignment to an address"),
+        ("short s, t; unsigned char a;\nvoid main() { s = a = t; }\n", "char assignment nested in a 16-bit assignment (its high-byte pass has nowhere to store)"))]
+    # macro forms whose expansion depends on what the regular expressions of cpp.rs match (no contract reaches that): the value computed tells
+    def mac(defs, body, expect, note, decl="unsigned char q, r, A2;"):
+        return {"source": "%s\n%s\nvoid main() { %s }\n" % (defs, decl, body), "args": ["-O0"], "expect": {"panic": False, "must_compile": True},
+                "simulate": {"init": {"q": 7}, "expect": expect, "stack_empty": True}, "note": note}
+    macros = [
+        mac("#define P (q)", "r = P;", {"r": 7}, "object-like macro whose body is a parenthesised identifier"),
+        mac("#define W 5\n#define LIMIT (W)", "r = LIMIT;", {"r": 5}, "body in terms of an earlier macro, parenthesised"),
+        mac("#define ADD(a,b) a+b", "r = ADD(ADD(1,2),3);", {"r": 6}, "nested call of a function-like macro"),
+        mac("#define ADD(a, b) a+b", "r = ADD((q), 1);", {"r": 8}, "parenthesised argument, blank after the comma of the parameter list"),
+        mac("#define A 1", "A2 = 5; r = A2 + A;", {"r": 6, "A2": 5}, "a macro name inside a longer identifier is left alone"),
+        mac("#define A 1\n#undef A\n#define A 2", "r = A;", {"r": 2}, "#undef then a new definition"),
+        mac("#define TWICE(x) x+x\n#define INC(x) x+1", "r = TWICE(INC(q));", {"r": 16}, "a macro call as the argument of another macro"),
+    ]
+    # character constants: every escape of the property's table, as a constant (string literals are U-qstr's subject)
+    chars = [{"source": "const char t[10] = {'\\a','\\b','\\f','\\v','\\n','\\r','\\t','\\0','\\\\','\\''};\nvoid main() { X = t[0]; }\n", "args": ["-O0"],
+              "expect": {"panic": False, "must_compile": True, "stdout_contains": "ARRAY t size=10 = 7 8 12 11 10 13 9 0 92 39"}, "note": "the ten escapes as character constants in a table"},
+             {"source": "unsigned char c;\nvoid main() { c = '\\a'; }\n", "args": ["-O0"], "expect": {"panic": False, "must_compile": True, "stdout_contains": "LDA #7"}, "note": "'\\a' in an expression"}]
+    return [("character-constants", ["C09"], chars), ("macro-forms", ["C08"], macros), ("constant-destinations-rejected", ["C13", "C01"], rejected), ("error-locations", ["C06"], loc), ("error-locations-inside-a-statement", ["C06"], multi), ("no-panic", ["C16"], nopanic)]
 
 
 def build(repo):
     u = Unit(NAME, TOOL, PROPS, [],
              assumptions=["BOUNDED: only the listed programs are covered"],
-             bounded=["the program lists of units/u_errs.py: 8 located errors, 3 located errors inside multi-line statements (known finding), 11 inputs that used to panic"])
+             bounded=["the program lists of units/u_errs.py: 7 macro forms, 3 rejected stores, 9 located errors, 3 located errors inside multi-line statements (known finding), 11 inputs that used to panic"])
     u.text[None] = ""
     u.dropped = ["nothing is extracted: the whole compiler runs (vf/probe)"]
     return u
